@@ -27,6 +27,7 @@ import (
 	"strings"
 	"sync"
 	"syscall"
+	"time"
 
 	"github.com/c2h5oh/datasize"
 	"github.com/relex/fluentlib/protocol/forwardprotocol"
@@ -36,6 +37,7 @@ import (
 	"github.com/relex/slog-agent/base"
 	"github.com/relex/slog-agent/base/bconfig"
 	"github.com/relex/slog-agent/buffer/hybridbuffer"
+	"github.com/relex/slog-agent/defs"
 	"github.com/relex/slog-agent/orchestrate/obykeyset"
 	"github.com/relex/slog-agent/output/fluentdforward"
 	"github.com/vmihailenco/msgpack/v4"
@@ -245,6 +247,11 @@ func runS2(c *vkit.Ctx, sc s2Case) {
 	if sc.umask >= 0 {
 		syscall.Umask(sc.umask)
 	}
+	if sc.note == "/longvalue" {
+		// if the queue directory cannot be created the buffer waits at shutdown for a consumer to take the chunks;
+		// the stalled consumer never does, so keep that wait short (harness-side; it decides nothing)
+		defs.BufferShutDownTimeout = 2 * time.Second
+	}
 	r := c.Rand("s2-plan", sc.idx)
 	caseName := fmt.Sprintf("s2/n%d/%s/%s/sinks%d%s", sc.n, sc.tmpl.name, sc.order, sc.nSinks, sc.note)
 	c.LogCase(caseName)
@@ -261,7 +268,7 @@ func runS2(c *vkit.Ctx, sc s2Case) {
 		}
 	}
 	wit := func(extra map[string]any) map[string]any {
-		m := map[string]any{"stage": 2, "case": caseName, "key_fields": sc.n, "template": sc.tmpl.text(), "order": sc.order, "sinks": sc.nSinks}
+		m := map[string]any{"stage": 2, "case_index": sc.idx, "case": caseName, "key_fields": sc.n, "template": sc.tmpl.text(), "order": sc.order, "sinks": sc.nSinks}
 		if sc.umask >= 0 {
 			m["umask"] = "0" + strconv.FormatInt(int64(sc.umask), 8)
 		}
@@ -395,7 +402,11 @@ func runS2(c *vkit.Ctx, sc s2Case) {
 		}
 	}
 	if missing > 0 || dup > 0 {
-		c.Violation("s2:records-not-queued",
+		cause := "other"
+		if missT != nil && len(missT.joined()) > 240 {
+			cause = "value-longer-than-a-file-name"
+		}
+		c.Violation("s2:records-not-queued:"+cause,
 			fmt.Sprintf("%s: with a stalled consumer %d of %d records are in no queued chunk after shutdown (first: tuple %s), %d are in more than one", caseName, missing, len(plan), missT, dup),
 			wit(map[string]any{"first_missing_tuple": missT}))
 	}
